@@ -114,7 +114,7 @@ def gen_prog(rng, i):
 
 def _slimp(case):
     c = dict(case)
-    c["program"] = {k: v for k, v in case["program"].items() if k != "deps"}
+    c["program"] = dict(case["program"])
     return c
 
 
@@ -236,7 +236,7 @@ def check_chain(case, ctx):
                 break
         if vio:
             break
-    slim = {**case, "p1": {k: v for k, v in d1.items() if k != "deps"}, "p2": {k: v for k, v in d2.items() if k != "deps"}}
+    slim = {**case, "p1": dict(d1), "p2": dict(d2)}
     if vio:
         ctx.violation(vio[0], slim, vio[1])
     ctx.count("checked:chain")
